@@ -48,6 +48,8 @@ register(PropertySpec(
              "(shared with C04) the rows of an evaluation that follows an abandoned one are the rows of the query: the per-evaluation duplicate-suppression state is reset on every exit of evaluate()"),
         Rule("TRAVERSAL-TOTAL", _lazy("history", "rule_traversal_total"), 2,
              "(shared with C04) that reset reaches every node of the tree"),
+        Rule("PRED-ARGS", _lazy("predform", "rule_predicate_args"), 1,
+             "a @predicate call inside a block binds its positional arguments by position (also to parameters that have a default)"),
     ],
     explanation="Decides the clause 'the condition vocabulary denotes the ordinary Python operator': the node each "
                 "public comparison/membership entry constructs (arguments mapped to dataclass fields through the MRO "
@@ -83,6 +85,8 @@ register(PropertySpec(
              "_is_false_ = (truthy == invert) and emit iff yield_when_false or not _is_false_"),
         Rule("VALUE-TRUTH", _lazy("values", "rule_value_truth"), 10,
              "(shared with C19) the inner steps of an attribute / call chain are values: a falsy intermediate value is mapped on, not dropped"),
+        Rule("PRED-ARGS", _lazy("predform", "rule_predicate_args"), 1,
+             "a @predicate call inside a block binds its positional arguments by position (also to parameters that have a default)"),
     ],
     explanation="Negation is a rewrite at construction time, so it is a function on syntax and is decided from the "
                 "source: the inverse-operator table is extracted by abstract evaluation of the setter's CFG (match / if "
@@ -193,6 +197,13 @@ register(PropertySpec(
              "(shared with C20) invalidating a result cache after an abandoned evaluation also withdraws its coverage marks"),
         Rule("MEMO-SOURCE-FAILURE", _lazy("lazy", "rule_memo_source_failure"), 1,
              "a one-shot domain source that raised (user code inside a sub-query used as a domain) is not mistaken for an exhausted one"),
+        Rule("EVAL-FLAG", _lazy("history", "rule_eval_flag"), 3,
+             "scalar flags a node sets on itself during evaluation and reads back are assigned before they are read in every evaluation, "
+             "or withdrawn on every exit of the function that sets them, or assigned by the reset"),
+        Rule("CACHED-POSITION-RESET", _lazy("history", "rule_cached_position_reset"), 1,
+             "memoised methods that depend on the position of a node in the tree are dropped with the per-evaluation state"),
+        Rule("RESET-REACHES-EVALUATED", _lazy("history", "rule_reset_reaches_evaluated"), 6,
+             "every sub-expression a node evaluates is linked below it in the node graph the reset and the invalidation walk"),
     ],
     explanation="History independence is absence of residue on the shared expression nodes. Decided: where residue is "
                 "written (discovered mechanically from dataclass fields and mutation sites reachable from evaluation "
@@ -309,6 +320,8 @@ register(PropertySpec(
              "the failed rows of a rule are keyed by what the alternative tried next tests AND by what it concludes on"),
         Rule("CONCLUDED-PER-CONCLUSION", _lazy("ruletree", "rule_concluded_per_conclusion"), 2,
              "what a selector remembers as already concluded is remembered per conclusion, not only per binding of its variables"),
+        Rule("CACHED-POSITION-RESET", _lazy("history", "rule_cached_position_reset"), 1,
+             "memoised methods that depend on the position of a node in the tree are dropped with the per-evaluation state"),
     ],
     explanation="Attaching a branch rewires the condition tree in place; evaluation follows the left/right fields, not "
                 "the graph edges, so a selector that is attached in the graph but not stored in its parent's operand slot "
@@ -580,6 +593,8 @@ register(PropertySpec(
              "(shared with C04) that reset reaches every node of the tree"),
         Rule("VALUE-TRUTH", _lazy("values", "rule_value_truth"), 10,
              "(shared with C19) the inner steps of an attribute / call chain are values: a falsy intermediate value is mapped on, not dropped"),
+        Rule("DEDUP-TRUTH-UP", _lazy("binding", "rule_dedup_truth_up"), 1,
+             "a conjunction reports its own truth to its parent as unknown when all that is known is that one operand is true"),
     ],
     explanation="An implicit join is a join only if every operator threads the binding it received to its operands and "
                 "keeps everything its operands bound. Both are provenance facts on the evaluation call sites and the "
@@ -692,6 +707,8 @@ register(PropertySpec(
         Rule("ID-KEEP", infer_rules.rule_id_keep, 10,
              "constructor keyword values are the .value of the bound HashedValues; every copy() in the package takes a "
              "binding dict, never a user object"),
+        Rule("PRED-ARGS", _lazy("predform", "rule_predicate_args"), 1,
+             "a @predicate call inside a block binds its positional arguments by position (also to parameters that have a default)"),
     ],
     explanation="All clauses are weak but necessary: arguments evaluated under the current binding, one construction "
                 "per combination, no retrieval instead of construction for inferred variables, existing objects passed "
@@ -725,6 +742,8 @@ register(PropertySpec(
              "(shared with C02) the order of selected variables: the binding is not extended in place across the values of one selected variable"),
         Rule("PRODUCT", _lazy("binding", "rule_product"), 1,
              "(shared with C02) unrelated selected variables are combined by an all-combinations combinator"),
+        Rule("DEDUP-TRUTH-UP", _lazy("binding", "rule_dedup_truth_up"), 1,
+             "a conjunction reports its own truth to its parent as unknown when all that is known is that one operand is true"),
     ],
     explanation="Two of the six listed rewrites are decided: mirrored comparisons and contains/in_, by the OPDEN "
                 "denotation rule (C01). Commutativity/associativity of and/or, declaration/selection order and domain "
